@@ -430,6 +430,30 @@ def rule_frame(ctx, repo):
                            'whose text form is 747415e100)' % (norm(rn.value)[:40], kvar, kvar, kvar), sure=True)
             else:
                 r.undecided('reader:slices-disjoint', common.site_of(new, rn), 'whether len(%s) >= 5 where the object is built is not decided (tests: %s)' % (kvar, pcs_[:3]))
+    # ... and nothing longer is refused for its length: version byte + empty payload + checksum (five bytes) is a complete frame
+    if kvar:
+        from ..rules import raising_guards as _rg, equiv as _eqv
+        lk = 'len(%s)' % kvar
+        guards_ = []
+        for g0_, n_ in _rg(new.node, repo, new.module, new.cls):
+            e0_ = ast.parse(g0_, mode='eval').body
+            for d_ in (e0_.values if isinstance(e0_, ast.BoolOp) and isinstance(e0_.op, ast.Or) else [e0_]):
+                guards_.append((ast.unparse(d_), n_))  # each disjunct of a refusal refuses on its own
+        for g_, n_ in guards_:
+            if lk not in g_:
+                continue
+            rest = re.sub(r'\d+|\b(and|or|not)\b|[<>=!()\s+-]', '', g_.replace(lk, ''))
+            if rest:
+                r.undecided('reader:length-refusal', common.site_of(new, n_), 'the refusal `%s` tests the length together with something else' % g_[:80])
+                continue
+            v_ = _eqv('(%s) or %s < 5' % (g_, lk), '%s < 5' % lk)
+            if v_ is True:
+                r.ok('reader:length-refusal', common.site_of(new, n_), '`%s` refuses only strings shorter than a version byte plus checksum' % g_)
+            elif v_ is False:
+                r.violated('reader:length-refusal', common.site_of(new, n_), 'the length refusal `%s` turns away strings of five or more bytes: a version byte with an empty payload and its checksum '
+                           '(five bytes) is a complete frame, and what to_bytes/str produce for it no longer parses' % g_, sure=True)
+            else:
+                r.undecided('reader:length-refusal', common.site_of(new, n_), 'the length refusal `%s` was not compared with len < 5' % g_)
     mf = flow.run_must(new.node, cond=cond)
     rets = [(k, n, f) for k, n, f in mf.exits if k == 'return']
     built = want(new, 'cls.from_bytes(%s[1:-4], %s[0:1][0])' % (K, K))
